@@ -33,6 +33,9 @@ type childCfg struct {
 	SegSize   int64
 	Keep      int
 	OptFsync  bool
+	// expire times kept in the value header and judged by every read and write (expiration policy wait_compact, value
+	// header v1) instead of the default policy (local deletion by a scanner, reads never look at the expire time)
+	WaitCompact bool
 	// three-replica mode (follower lives): ID 1..3 of this replica, Base = first port of the group (replica j owns
 	// Base+(j-1)*5 ..+4), Root = the directory that holds the data directories n1, n2, n3, Blocked = start with the
 	// raft messages of the other replicas dropped (the node serves what it recovered, nothing else)
@@ -140,6 +143,10 @@ func runChild(cfg childCfg) {
 	nsConf.SnapCount = cfg.SnapCount
 	nsConf.SnapCatchup = cfg.SnapCount / 2
 	nsConf.OptimizedFsync = cfg.OptFsync
+	if cfg.WaitCompact {
+		nsConf.ExpirationPolicy = common.WaitCompactExpirationPolicy
+		nsConf.DataVersion = common.ValueHeaderV1Str
+	}
 	nsConf.RaftGroupConf.GroupID = 1000
 	nsConf.RaftGroupConf.SeedNodes = append(nsConf.RaftGroupConf.SeedNodes, replica)
 	if cluster {
